@@ -864,6 +864,23 @@ def dargs(n: size, k: index, b: bool, x: f32[n + 4], y: f32[n + 4]):
     if b:
         y[3] = 0.0
 """)
+S("dup/fission_shared_iter", "dup", """
+@proc
+def dfc(m: size, d: [f32][m]):
+    for i in seq(0, m):
+        d[i] = d[i] + 1.0
+
+@proc
+def dfis(n: size, x: f32[n, 4], y: f32[n], z: f32[n, 4]):
+    for i in seq(0, n):
+        y[i] = x[i, 0]
+        dfc(4, z[i, 0:4])
+        z[i, 1] = x[i, 1] * 2.0
+
+# both halves keep the SAME iterator symbol
+dfis = fission(dfis, dfis.find("y[i] = _").after())
+""", entry="dfis", callees=("dfc",))
+
 S("dup/cut", "dup", """
 @proc
 def dcut(n: size, x: f32[n + 3]):
